@@ -113,6 +113,17 @@ def r1_stable_insertion(ctx):
                         dst = f.expr_place({'l': st['p']['l'], 'pr': st['p']['pr'][:-1]}, bb, ii)
                         if any(x[0] == 'call' and x[1].endswith('EventNode::new') for x in walk(dst)):
                             stores[fl[-1]['n']] = f.expr_rvalue(st['r'], bb, ii)
+        if not ('prev' in stores and 'next' in stores):
+            # the node is created with its links in place: `EventNode::new(.., prev, next, ..)` whose literal stores those parameters
+            for g in [h for k_, h in ctx.P.fns.items() if k_.endswith('EventNode::new')]:
+                for s_ in f.calls_to(g.key):
+                    for _, rt_ in ret_trees(g):
+                        for x in walk(rt_):
+                            if x[0] == 'agg' and str(x[1]).endswith('EventNode::EventNode') and len(x) > 3:
+                                for nm, comp in zip(x[3], x[2]):
+                                    c_ = peel(comp)
+                                    if nm in ('prev', 'next') and c_[0] == 'arg' and isinstance(c_[1], int) and c_[1] - 1 < len(s_.args):
+                                        stores[nm] = f.expr_operand(s_.args[c_[1] - 1], s_.b, 'T')
         if 'prev' in stores and 'next' in stores:
             p, n = ptr_norm(stores['prev']), ptr_norm(stores['next'])
             p_is_cur = _mentions_local(p, var) and p[0] != 'field'
